@@ -122,6 +122,12 @@ def run(ctx):
                 ctx.violation("text.legacy_raises", dict(case, layer="legacy"), want, exc)
             elif w != want:
                 ctx.violation("text.legacy_" + h, dict(case, layer="legacy"), want, w)
+            else:
+                # the same request again through the same port: the same text again (nothing remembered from the first call)
+                _w2, exc2 = observe(fn, port)
+                again = [x for x in port.writes if not (h == "servo_timeout" and x == "V\r")]
+                if exc2 or again != want + want:
+                    ctx.violation("text.repeated_request_same_text", dict(case, layer="legacy", repeat=2), want + want, exc2 or again)
             # with no port nothing is sent (and nothing raised)
             fn0 = legacy_call(em, es, h, a, None)
             _w, exc0 = observe(fn0, ebbfake.LegacyOKPort())
@@ -141,6 +147,18 @@ def run(ctx):
                 ctx.violation("text.ebb3_raises", dict(case, layer="ebb3"), want, exc3)
             elif w3 != want:
                 ctx.violation("text.ebb3_" + h, dict(case, layer="ebb3"), want, w3)
+            elif h not in ("reboot", "bootload"):
+                _w, exc2 = observe(fn3, port3)                 # same request again on the same object
+                if exc2 or list(port3.writes) != want + want:
+                    ctx.violation("text.repeated_request_same_text", dict(case, layer="ebb3", repeat=2), want + want, exc2 or list(port3.writes))
+                if n % 4 == 0:
+                    # a board that answers late (two read timeouts before every reply) must see exactly the same text
+                    portd = ebbfake.EchoPort(qe, delay=2)
+                    objd = e3m.EBBMotionWrap()
+                    objd.port = portd
+                    wd, excd = observe(ebb3_call(objd, h, a), portd)
+                    if excd or wd != want:
+                        ctx.violation("text.late_reply_same_text", dict(case, layer="ebb3", delay=2), want, excd or wd)
             obj0 = e3m.EBBMotionWrap()                      # not connected: nothing can be sent; must not raise
             _w, exc0 = observe(ebb3_call(obj0, h, a), ebbfake.EchoPort())
             if exc0:
@@ -172,17 +190,19 @@ def replay(rec):
     ctx = vlib.Ctx("C06", "quick", 0, LEVEL, fresh=False)
     # expected lines from TLC: evaluate the table for this one request
     want = rec.get("expected")
+    reps = c.get("repeat", 1)
     if c["layer"] == "legacy":
         port = ebbfake.LegacyOKPort() if c.get("port", 1) is not None else None
         rp = ebbfake.LegacyOKPort()
-        w, exc = observe(legacy_call(em, es, h, a, port), port if port is not None else rp)
-        if h == "servo_timeout" and w[:1] == ["V\r"]:
-            w = w[1:]
+        for _k in range(reps):
+            w, exc = observe(legacy_call(em, es, h, a, port), port if port is not None else rp)
+        w = [x for x in w if not (h == "servo_timeout" and x == "V\r")]
     else:
-        port3 = ebbfake.EchoPort((a[2], a[3]) if h == "motors_enable" else (0, 0))
+        port3 = ebbfake.EchoPort((a[2], a[3]) if h == "motors_enable" else (0, 0), delay=c.get("delay", 0))
         obj = e3m.EBBMotionWrap()
         if c.get("port", 1) is not None:
             obj.port = port3
-        w, exc = observe(ebb3_call(obj, h, a), port3)
+        for _k in range(reps):
+            w, exc = observe(ebb3_call(obj, h, a), port3)
     ok = exc is None and (c.get("port", 1) is None or w == want)
     return ok, {"written": w, "exception": exc, "documented": want}
